@@ -65,6 +65,7 @@ RECURSIVE DecNat(_)
 DecNat(n) == IF n < 10 THEN <<48 + n>> ELSE DecNat(n \div 10) \o <<48 + (n % 10)>>
 Dec(n) == IF n < 0 THEN <<45>> \o DecNat(-n) ELSE DecNat(n)
 Unsigned(l) == l[1] + 256 * l[2]
+Wrap16(x) == ((x + 32768) % 65536) - 32768
 Bases == {-32768, -1, 0, 1, 2, 3, 7, 10, 16, 255, 256, 1000, 32767}
 
 IntLaws(l) ==
@@ -88,6 +89,15 @@ IntLaws(l) ==
           IF n <= 0 \/ b < 2 THEN IsNone(r)
           ELSE ~IsNone(r) /\ PowNat(b, r.v) <= n /\ n \div PowNat(b, r.v) < b
      /\ (n > 0 => ILogL(l, NatL(2)).v = W - 1 - LeadingZeros(l))
+     \* wrapping sum / product against TLC's integers, bitwise laws
+     /\ \A b \in Bases :
+          LET m == FromNative(b) IN
+          /\ ToNative(AddL(l, m)) = Wrap16(n + b) /\ ToNative(MulL(l, m)) = Wrap16(n * b)
+          /\ AndL(l, m) = AndL(m, l) /\ OrL(l, m) = OrL(m, l)
+          /\ NotL(AndL(l, m)) = OrL(NotL(l), NotL(m))
+          /\ CountOnes(AndL(l, m)) + CountOnes(OrL(l, m)) = CountOnes(l) + CountOnes(m)
+     /\ AndL(l, l) = l /\ OrL(l, l) = l /\ AndL(l, NotL(l)) = ZeroL /\ OrL(l, NotL(l)) = AllOnesL
+     /\ AndL(l, AllOnesL) = l /\ OrL(l, ZeroL) = l /\ AddL(l, NegL(l)) = ZeroL /\ MulL(l, NatL(1)) = l
      \* parse_int inverts decimal rendering, accepts a plus sign and leading zeros, nothing else
      /\ ParseIntCps(Dec(n)) = IntL(l)
      /\ (n >= 0 => ParseIntCps(<<43>> \o Dec(n)) = IntL(l) /\ ParseIntCps(<<48, 48>> \o Dec(n)) = IntL(l))
@@ -153,6 +163,8 @@ StartLaws ==
                       /\ TruncHalf(h) = (IF h >= 0 THEN FloorHalf(h) ELSE CeilHalf(h))
                       /\ RoundHalf(h) \in {FloorHalf(h), CeilHalf(h)} /\ RoundEvenHalf(h) \in {FloorHalf(h), CeilHalf(h)}
                       /\ (h % 2 = 1 => RoundEvenHalf(h) % 2 = 0 /\ RoundHalf(h) = (IF h > 0 THEN CeilHalf(h) ELSE FloorHalf(h)))
+  \* Unicode's White_Space property has exactly 25 code points, none above U+3000
+  /\ Cardinality({c \in 0..70000 : IsWs(c)}) = 25 /\ IsWs(13) /\ IsWs(12288) /\ ~IsWs(8203) /\ ~IsWs(6158)
   /\ TableWellFormed
 
 (***************************************************************************)
